@@ -3,6 +3,7 @@ package main
 import (
 	"bufio"
 	"fmt"
+	"sort"
 	"strings"
 
 	"gcverif/internal/fsdrv"
@@ -54,9 +55,10 @@ type Hist struct {
 	Ref     *fsdrv.Ref
 	Count   map[string]int
 	Lines   []string
-	bases   [][]string // base path of handle k (in the root's coordinates)
-	outside bool       // this history may leave Pre
-	left    bool       // … and has done so
+	bases   [][]string          // base path of handle k (in the root's coordinates)
+	outside bool                // this history may leave Pre
+	left    bool                // … and has done so
+	ever    map[string][]string // every node the tracked tree has ever had (root coordinates): paths to come back to
 }
 
 func NewHist(r *hx.Rand) *Hist {
@@ -67,7 +69,9 @@ type nopWriter struct{}
 
 func (nopWriter) Write(p []byte) (int, error) { return len(p), nil }
 
-func (h *Hist) emit(format string, a ...interface{}) { h.Lines = append(h.Lines, fmt.Sprintf(format, a...)) }
+func (h *Hist) emit(format string, a ...interface{}) {
+	h.Lines = append(h.Lines, fmt.Sprintf(format, a...))
+}
 
 func hp(s string) string { return fsdrv.HP(s) }
 
@@ -172,6 +176,33 @@ func (h *Hist) rel(k int, want int) ([]string, bool) {
 			}
 		}
 		return cat(parent, "n"+fmt.Sprint(h.R.Intn(1000)))
+	}
+	if (want == wFresh || want == wDeep) && h.R.Chance(1, 3) {
+		// come back to a path that existed earlier in this history and is gone now (its directory, or an
+		// ancestor of it, was removed in between): whatever an implementation remembers about paths is stale
+		var revive [][]string
+		keys := make([]string, 0, len(h.ever))
+		for k := range h.ever {
+			keys = append(keys, k)
+		}
+		sort.Strings(keys)
+		for _, k := range keys {
+			abs := h.ever[k]
+			if !hasPrefix(abs, base) || len(abs) <= len(base) || kindAt(h.Ref, abs) != '-' {
+				continue
+			}
+			parentThere := kindAt(h.Ref, abs[:len(abs)-1]) == 'd' || len(abs)-1 == len(base)
+			if parentThere == (want == wFresh) {
+				revive = append(revive, abs[len(base):])
+			}
+		}
+		if r, ok := pick(revive); ok {
+			h.Count["path:revived"]++
+			if want == wDeep && h.R.Chance(1, 2) {
+				r = append(r, h.name())
+			}
+			return r, true
+		}
 	}
 	switch want {
 	case wFile:
@@ -410,6 +441,7 @@ func (h *Hist) History(outside bool) []string {
 	h.Ref = fsdrv.NewRef()
 	h.bases = [][]string{{}}
 	h.outside, h.left = outside, false
+	h.ever = map[string][]string{}
 	h.emit("reset")
 	h.emit("new 0 disk")
 	if h.R.Chance(1, 4) {
@@ -474,6 +506,9 @@ func (h *Hist) History(outside bool) []string {
 		h.emit("%s", c.line(1))
 		h.Ref.Line(strings.Split(c.line(1), " "))
 		if mutatingCmd[c.cmd] {
+			for _, e := range h.tree() {
+				h.ever[strings.Join(e.segs, "/")] = e.segs
+			}
 			h.emit("dump 0")
 			h.emit("dump 1")
 			if h.R.Chance(1, 4) {
